@@ -203,8 +203,18 @@ func now() uint64 {
 	return uint64(time.Now().UnixMilli())
 }
 
-func (d *db) applyWriteRequest(b *proto.WriteRequest, batch WriteBatch, commitOffset int64, timestamp uint64, updateOperationCallback UpdateOperationCallback) (*notifications, *proto.WriteResponse, error) {
+// sequenceUpdate is a key generated by a sequential put. The subscribers of
+// the prefix are told about it only once the batch has been committed: a
+// subscriber that registers in between reads the last key from the db, and
+// would otherwise miss the one that was announced but not yet visible there.
+type sequenceUpdate struct {
+	prefixKey string
+	newKey    string
+}
+
+func (d *db) applyWriteRequest(b *proto.WriteRequest, batch WriteBatch, commitOffset int64, timestamp uint64, updateOperationCallback UpdateOperationCallback) (*notifications, *proto.WriteResponse, []sequenceUpdate, error) {
 	res := &proto.WriteResponse{}
+	var sequenceUpdates []sequenceUpdate
 	var notifications *notifications
 	if d.notificationsEnabled {
 		notifications = newNotifications(d.shardId, commitOffset, timestamp)
@@ -212,9 +222,9 @@ func (d *db) applyWriteRequest(b *proto.WriteRequest, batch WriteBatch, commitOf
 
 	d.putCounter.Add(len(b.Puts))
 	for _, putReq := range b.Puts {
-		pr, err := d.applyPut(batch, notifications, putReq, timestamp, updateOperationCallback, false)
+		pr, err := d.applyPut(batch, notifications, putReq, timestamp, updateOperationCallback, false, &sequenceUpdates)
 		if err != nil {
-			return nil, nil, err
+			return nil, nil, nil, err
 		}
 		res.Puts = append(res.Puts, pr)
 	}
@@ -223,7 +233,7 @@ func (d *db) applyWriteRequest(b *proto.WriteRequest, batch WriteBatch, commitOf
 	for _, delReq := range b.Deletes {
 		dr, err := d.applyDelete(batch, notifications, delReq, updateOperationCallback)
 		if err != nil {
-			return nil, nil, err
+			return nil, nil, nil, err
 		}
 
 		res.Deletes = append(res.Deletes, dr)
@@ -233,13 +243,13 @@ func (d *db) applyWriteRequest(b *proto.WriteRequest, batch WriteBatch, commitOf
 	for _, delRangeReq := range b.DeleteRanges {
 		dr, err := d.applyDeleteRange(batch, notifications, delRangeReq, updateOperationCallback)
 		if err != nil {
-			return nil, nil, err
+			return nil, nil, nil, err
 		}
 
 		res.DeleteRanges = append(res.DeleteRanges, dr)
 	}
 
-	return notifications, res, nil
+	return notifications, res, sequenceUpdates, nil
 }
 
 func (d *db) ProcessWrite(b *proto.WriteRequest, commitOffset int64, timestamp uint64, updateOperationCallback UpdateOperationCallback) (*proto.WriteResponse, error) {
@@ -247,7 +257,7 @@ func (d *db) ProcessWrite(b *proto.WriteRequest, commitOffset int64, timestamp u
 	defer timer.Done()
 
 	batch := d.kv.NewWriteBatch()
-	notifications, res, err := d.applyWriteRequest(b, batch, commitOffset, timestamp, updateOperationCallback)
+	notifications, res, sequenceUpdates, err := d.applyWriteRequest(b, batch, commitOffset, timestamp, updateOperationCallback)
 	if err != nil {
 		return nil, err
 	}
@@ -281,6 +291,10 @@ func (d *db) ProcessWrite(b *proto.WriteRequest, commitOffset int64, timestamp u
 		d.notificationsTracker.UpdatedCommitOffset(commitOffset)
 	}
 
+	for _, su := range sequenceUpdates {
+		d.sequenceWaiterTracker.SequenceUpdated(su.prefixKey, su.newKey)
+	}
+
 	if err := batch.Close(); err != nil {
 		return nil, err
 	}
@@ -303,7 +317,7 @@ func (d *db) addASCIILong(key string, value int64, batch WriteBatch, timestamp u
 		Key:               key,
 		Value:             asciiValue,
 		ExpectedVersionId: nil,
-	}, timestamp, NoOpCallback, true)
+	}, timestamp, NoOpCallback, true, nil)
 	return err
 }
 
@@ -458,7 +472,7 @@ func (d *db) UpdateTerm(newTerm int64, options TermOptions) error {
 	if _, err := d.applyPut(batch, nil, &proto.PutRequest{
 		Key:   termKey,
 		Value: []byte(fmt.Sprintf("%d", newTerm)),
-	}, now(), NoOpCallback, true); err != nil {
+	}, now(), NoOpCallback, true, nil); err != nil {
 		return err
 	}
 
@@ -469,7 +483,7 @@ func (d *db) UpdateTerm(newTerm int64, options TermOptions) error {
 	if _, err := d.applyPut(batch, nil, &proto.PutRequest{
 		Key:   termOptionsKey,
 		Value: serOptions,
-	}, now(), NoOpCallback, true); err != nil {
+	}, now(), NoOpCallback, true, nil); err != nil {
 		return err
 	}
 
@@ -526,7 +540,7 @@ func (d *db) ReadTerm() (term int64, options TermOptions, err error) {
 	return term, options, nil
 }
 
-func (d *db) applyPut(batch WriteBatch, notifications *notifications, putReq *proto.PutRequest, timestamp uint64, updateOperationCallback UpdateOperationCallback, internal bool) (*proto.PutResponse, error) { //nolint:revive
+func (d *db) applyPut(batch WriteBatch, notifications *notifications, putReq *proto.PutRequest, timestamp uint64, updateOperationCallback UpdateOperationCallback, internal bool, sequenceUpdates *[]sequenceUpdate) (*proto.PutResponse, error) { //nolint:revive
 	var se *proto.StorageEntry
 	var err error
 	var newKey string
@@ -534,9 +548,9 @@ func (d *db) applyPut(batch WriteBatch, notifications *notifications, putReq *pr
 		prefixKey := putReq.Key
 		newKey, err = generateUniqueKeyFromSequences(batch, putReq)
 		putReq.Key = newKey
-		if err == nil {
+		if err == nil && sequenceUpdates != nil {
 			// a refused sequential put generates no key: there is nothing to tell the subscribers
-			d.sequenceWaiterTracker.SequenceUpdated(prefixKey, newKey)
+			*sequenceUpdates = append(*sequenceUpdates, sequenceUpdate{prefixKey: prefixKey, newKey: newKey})
 		}
 	} else if !internal {
 		se, err = checkExpectedVersionId(batch, putReq.Key, putReq.ExpectedVersionId)
